@@ -157,7 +157,7 @@ class Job:
         return s
 
     def prove(self, oid, conds, neg, replay=None, inputs=None, timeout=30, congruence=None,
-              known=None, extra_models=3):
+              known=None, extra_models=3, fallback=()):
         """obligation: conds => not neg.  unsat: discharged.  sat: candidate, reported only if
         `replay` (module:function, evaluated on the unpatched repo code) reproduces it.
         inputs: {name: z3 term} whose model values are handed to the replay function."""
@@ -188,7 +188,7 @@ class Job:
             res["status"] = "inconclusive"
             res["detail"] = "solver: %s" % s.reason_unknown()
         else:
-            res.update(self._candidate(oid, s, replay, inputs, extra_models))
+            res.update(self._candidate(oid, s, replay, inputs, extra_models, fallback))
         if res["status"] == "violated" and known is not None:
             kf = known(res)
             if kf:
@@ -197,7 +197,7 @@ class Job:
         self.results.append(res)
         return res["status"]
 
-    def _candidate(self, oid, s, replay, inputs, extra_models):
+    def _candidate(self, oid, s, replay, inputs, extra_models, fallback=()):
         """sat answer: extract inputs, replay on the real code; retry with further models"""
         if replay is None:
             return {"status": "inconclusive", "detail": "sat but no replay available (abstraction artefact possible)"}
@@ -206,6 +206,9 @@ class Job:
             m = s.model()
             vals = {}
             for k, term in (inputs or {}).items():
+                if not isinstance(term, z3.ExprRef):
+                    vals[k] = term  # static input (mode, kind, name ...)
+                    continue
                 try:
                     vals[k] = model_value(m, term)
                 except Exception:
@@ -220,13 +223,23 @@ class Job:
                 break
             blk = []
             for k, term in inputs.items():
-                if vals.get(k) is not None and not symx.is_num(term):
+                if isinstance(term, z3.ExprRef) and vals.get(k) is not None and not symx.is_num(term):
                     blk.append(z3.Or(term > symx.rv(vals[k]) * 2 + 1, term < symx.rv(vals[k]) / 2 - 1))
             if not blk:
                 break
             s.add(self.rng.choice(blk))
             if s.check() != z3.sat:
                 break
+        # the solver's values may be numerically degenerate (overflow, stub values no real callee takes):
+        # evaluate the same assertion at realistic seeded points of the same obligation
+        static = {k: v for k, v in (inputs or {}).items() if not isinstance(v, z3.ExprRef)}
+        for fb in fallback:
+            vals = dict(static)
+            vals.update(fb)
+            out = run_replay(replay, vals)
+            if not out["ok"]:
+                return {"status": "violated", "replay": {"fn": replay, "inputs": out.get("inputs", vals)},
+                        "detail": out.get("detail", "")}
         return {"status": "inconclusive",
                 "detail": "sat in the abstraction but not reproduced on the real code (%d models tried): %s"
                           % (len(tried), tried[0]["outcome"])}
